@@ -594,6 +594,7 @@ class Interp:
         self.funcs_seen = {}
         self.follow_symbolic = follow_symbolic
         self.depth = 0
+        self.stack = []
         self.native_mode = False
 
     # ------------------------------------------------------------ helpers
@@ -777,6 +778,9 @@ class Interp:
         if isinstance(recv, _io.IOBase) and all(isinstance(a, (int, SInt, SBool)) or not is_sym(a) for a in args):
             # C-level file objects take ints through __index__ (which forks the value)
             return self.call_native(f, args, kwargs)
+        if isinstance(f, (types.MethodDescriptorType, types.WrapperDescriptorType)) and isinstance(getattr(f, "__objclass__", None), type) \
+                and issubclass(f.__objclass__, BaseException):
+            return f(*args, **kwargs)  # exception constructors only store their arguments
         if recv is None or isinstance(recv, types.ModuleType):
             nm = getattr(f, "__name__", "")
             if f in (builtins.print, builtins.id, builtins.enumerate, builtins.zip, builtins.reversed, builtins.next, builtins.getattr, builtins.setattr, builtins.hasattr, builtins.callable, builtins.map, builtins.filter):
@@ -1065,6 +1069,8 @@ class Interp:
         self.depth += 1
         if self.depth > 200:
             raise BoundExceeded("interpreter recursion depth")
+        frame = [getattr(fobj, "__qualname__", None) or getattr(node, "name", "?"), 0]
+        self.stack.append(frame)
         try:
             if is_gen:
                 env.yields = []
@@ -1078,8 +1084,13 @@ class Interp:
             except _Return as r:
                 return r.v
             return None
+        except (Unsupported, BoundExceeded) as e:
+            if not hasattr(e, "symex_stack"):
+                e.symex_stack = [f"{n}:{ln}" for n, ln in self.stack]
+            raise
         finally:
             self.depth -= 1
+            self.stack.pop()
 
     def bind_closure_args(self, a, env, parent_env, args, kwargs):
         params = [x.arg for x in a.posonlyargs + a.args]
@@ -1119,6 +1130,8 @@ class Interp:
             self.exec(s, env)
 
     def exec(self, s, env):
+        if self.stack:
+            self.stack[-1][1] = getattr(s, "lineno", 0)
         m = getattr(self, "x_" + type(s).__name__, None)
         if m is None:
             raise Unsupported(f"stmt {type(s).__name__}")
